@@ -3,7 +3,7 @@ from __future__ import annotations
 
 import ast
 
-from sa import match, sym, util
+from sa import astnorm, match, sym, util
 from sa.model import AnalysisError, norm_ident, unparse
 from sa.sym import Term
 
@@ -78,7 +78,8 @@ def rule_agnostic(chk, prog):
   for f in all_functions(prog):
     if f.cls is not None and f.cls.name in IMPLS + ('SphericalHarmonics', 'RealSphericalHarmonicsWithZeroImag'):
       continue
-    for node in ast.walk(f.node):
+    nf = astnorm.normalised(f.node)
+    for node in ast.walk(nf):
       if isinstance(node, ast.Attribute) and isinstance(node.value, ast.Attribute) and node.value.attr == 'spherical_harmonics':
         n += 1
         chk.check(node.attr in iface, rule, f'{f.qualname.replace("dinosaur.", "")}: uses spherical_harmonics.{node.attr} — a member of the common interface', node.attr, (f.file, node.lineno),
@@ -86,7 +87,7 @@ def rule_agnostic(chk, prog):
       if isinstance(node, ast.Call) and isinstance(node.func, ast.Name) and node.func.id == 'isinstance' and len(node.args) == 2:
         names = {x.id if isinstance(x, ast.Name) else getattr(x, 'attr', '') for x in ast.walk(node.args[1])}
         if names & set(IMPLS) | (names & {'RealSphericalHarmonicsWithZeroImag'}):
-          in_assert = f.qualname.endswith('Grid.__post_init__') and any(isinstance(p, ast.Assert) and node in ast.walk(p) for p in ast.walk(f.node))
+          in_assert = f.qualname.endswith('Grid.__post_init__') and any(isinstance(p, ast.Assert) and node in ast.walk(p) for p in ast.walk(nf))
           chk.check(in_assert, rule, f'{f.qualname.replace("dinosaur.", "")}: isinstance test on an implementation class', unparse(node), (f.file, node.lineno),
                     'only the mesh ⇒ FastSphericalHarmonics assertion in Grid.__post_init__', unparse(node))
   # implementation classes named outside spherical_harmonic.py: registry values, defaults and call arguments only
